@@ -10,6 +10,9 @@
     unsafeInvoked   a function WITHOUT the side-effect-free flag was actually invoked during the evaluation
               (observed by counting wrappers around the natives' callbacks, not by error texts)
     leak      the value handed back to the caller contains a hidden attribute's value
+    matchedDespiteError   (event streams: several subscribers' filters on one event) the call site treated a filter as
+              matching — the event reached that subscriber — although that filter, evaluated in a sandboxed frame,
+              can only raise an error: the call site did not evaluate it sandboxed
 
   The property (properties.jsonl C19): sandboxed evaluation "cannot change any global variable or
   constant, configuration object, runtime attribute or file, and cannot call functions that are not
@@ -20,7 +23,7 @@ import IcingaModel.C19.Model
 
 namespace Icinga.C19
 
-inductive OpKind | program | native | field
+inductive OpKind | program | native | field | events
   deriving DecidableEq, Repr
 
 structure Obs where
@@ -30,9 +33,10 @@ structure Obs where
   changed : Bool
   leak : Bool
   unsafeInvoked : Bool := false
+  matchedDespiteError : Bool := false
   deriving DecidableEq, Repr
 
-inductive Clause | stateUnchanged | onlySafeCalls | hiddenFieldUnreadable | noLeak
+inductive Clause | stateUnchanged | onlySafeCalls | hiddenFieldUnreadable | noLeak | sandboxedAtSite
   deriving DecidableEq, Repr
 
 def Clause.name : Clause → String
@@ -40,6 +44,7 @@ def Clause.name : Clause → String
   | .onlySafeCalls => "only_side_effect_free_functions_called"
   | .hiddenFieldUnreadable => "no_user_view_field_unreadable"
   | .noLeak => "no_hidden_value_in_result"
+  | .sandboxedAtSite => "evaluated_sandboxed_at_call_site"
 
 /-- First violated clause of one observation, if any. -/
 def specStep (o : Obs) : Option Clause :=
@@ -47,6 +52,7 @@ def specStep (o : Obs) : Option Clause :=
   else if o.unsafeInvoked || (o.kind == .native && !o.flagged && o.outcome == .ok) then some .onlySafeCalls
   else if o.kind == .field && o.flagged && o.outcome == .ok then some .hiddenFieldUnreadable
   else if o.leak then some .noLeak
+  else if o.matchedDespiteError then some .sandboxedAtSite
   else none
 
 def specTrace : List Obs → Option Clause
@@ -63,5 +69,16 @@ def modelObs (cfg : Cfg) (kind : OpKind) (flagged : Bool) (fuel : Nat) (e : Expr
   let calls := (eval cfg true fuel e env).2.calls
   { kind := kind, flagged := flagged, outcome := o.1, changed := o.2, leak := false,
     unsafeInvoked := calls.any fun c => !(env.calls.contains c) && !safeCallee cfg c }
+
+/-- The model's observation of one event handed to several subscribers' filters (`pushEvent`): combined outcome
+    (a value iff every filter yields a value, else the first refusal/error), state change and invocations of functions without the flag
+    over the whole call, and "delivered although the evaluation was not a value". -/
+def modelEventsObs (cfg : Cfg) (fuel : Nat) (filters : List Expr) (env : Env) : Obs :=
+  let r := pushEvent cfg fuel filters env
+  { kind := .events, flagged := false,
+    outcome := ((r.1.map Prod.snd).find? (· != .ok)).getD .ok,
+    changed := decide (r.2.prot ≠ env.prot), leak := false,
+    unsafeInvoked := r.2.calls.any fun c => !(env.calls.contains c) && !safeCallee cfg c,
+    matchedDespiteError := r.1.any fun p => p.1 && p.2 != .ok }
 
 end Icinga.C19
